@@ -10,7 +10,7 @@ RULE = ('scenario templates over main.scss (entry), an optional middle module an
         'namespace and prefix names.  Templates: with (configuration of !default / plain / unknown / function-local / repeated '
         'variables, null, every `as` form), fwith (configuration through @forward: with, with !default overridden or not, '
         'pass-through, through a prefix, through show/hide), loaded (configuring a module that is already loaded, and the '
-        'permitted order), ns (namespace from the URL: directory, ./, ../, leading underscore, extension, index file, `as name`, '
+        'permitted order), ns (namespace from the URL: one and two directories, ./, ../, leading underscore, extension, index file, `as name`, '
         '`as *`; access through the expected namespace, the default namespace after `as`, and without a namespace), vis (members of '
         'a module used by a used module, of a sibling, of the entry file, of a forwarded module inside the forwarder), fwd (all '
         '63 show and 63 hide subsets of 2 variables + 2 functions + 2 mixins, with and without `as prefix-*`, function and mixin '
@@ -281,7 +281,8 @@ def t_fwith(v, n):
     ns = n['mid'] + '.'
     files = {'_%s.scss' % n['mid']: '@forward "%s"%s;\n' % (n['lib'], (' ' + clause) if clause else ''),
              '_%s.scss' % n['lib']: cfg_lib(n)}
-    sig = 'configure|%s' % t
+    # the pass-through variants differ only in the @forward clause the configuration travels through
+    sig = 'configure|%s' % ('pass-through' if t.startswith('pass-through') else t)
     if d is None:
         r = Reads()
         r.add('', 'fn', n['g'], None)        # nothing of the module is read: the configuration itself must be refused
@@ -362,7 +363,7 @@ def member(n, kind, w='a'):
 
 
 def v_ns(rng):
-    for place in ('beside', 'subdir', 'dot', 'parent', 'index', 'index-plain'):
+    for place in ('beside', 'subdir', 'deep', 'dot', 'parent', 'index', 'index-plain', 'index-deep'):
         for us in (False, True):
             for ext in (False, True):
                 for partial in (False, True):
@@ -387,6 +388,8 @@ def t_ns(v, n):
         path, url = fname, seg
     elif place == 'subdir':
         path, url = n['dir'] + '/' + fname, n['dir'] + '/' + seg
+    elif place == 'deep':
+        path, url = '%s/%s/%s' % (n['dir'], n['sub'], fname), './%s/%s/%s' % (n['dir'], n['sub'], seg)
     elif place == 'dot':
         path, url = fname, './' + seg
     elif place == 'parent':
@@ -396,6 +399,8 @@ def t_ns(v, n):
         path = n['dir'] + ('/_index.scss' if place == 'index' else '/index.scss')
         url = n['dir']
         default = n['dir']
+        if place == 'index-deep':
+            path, url = n['sub'] + '/' + path, n['sub'] + '/' + url
     as_ = {'default': None, 'name': n['as'], 'star': '*'}[v['as']]
     base = {path: simple_lib(n)}
     sig0 = 'ns|url-underscore=%s|url-extension=%s|index=%s|as=%s' % ('yes' if v['us'] else 'no', 'yes' if v['ext'] else 'no',
@@ -500,7 +505,7 @@ def t_vis(v, n):
     r.add('', 'var', n['g'], None)
     files = {'_%s.scss' % n['mid']: r.rule(), 'main.scss': '$%s: 1;\n%s\n' % (n['g'], use_line(n['mid']))}
     probes.append(probe('entry-variable-in-module', files, 'error', None, 'vis|%s' % t))
-    rc = Reads()
+    rc = Reads('c')
     rc.add('', 'var', n['g'], '1')
     files = {'_%s.scss' % n['mid']: '', 'main.scss': '$%s: 1;\n%s\n%s' % (n['g'], use_line(n['mid']), rc.rule())}
     probes.append(probe('control', files, 'value', rc.want, 'vis|%s|control' % t))
@@ -574,8 +579,6 @@ def t_fwd(v, n):
             cands.append((m['kind'], m['name'], 'listed' if m['listed'] else 'not-listed', 'original-name'))
     for k in KINDS:
         cands.append((k, pre + n['zz'], 'absent', 'absent-name'))
-    good = Reads()
-    goodsig = []
     probes = []
     done = set()
     for k, name, listed, how in cands:
@@ -592,13 +595,7 @@ def t_fwd(v, n):
             files['main.scss'] = use_line(n['mid'], aas) + '\n' + r.rule()
             probes.append(probe('%s:%s:%s' % (k, how, listed), files, 'value', r.want, sig))
             continue
-        r = Reads()
-        if ns == '' and k == 'fn':
-            r.add(ns, k, name, name + '()')
-            exp = 'value'
-        else:
-            r.add(ns, k, name, None)
-            exp = 'error'
+        r, exp = denied(ns, k, name)
         files = dict(base)
         files['main.scss'] = use_line(n['mid'], aas) + '\n' + r.rule()
         probes.append(probe('%s:%s:%s' % (k, how, listed), files, exp, r.want, sig))
@@ -639,8 +636,8 @@ def t_builtin(v, n):
         files['main.scss'] = '%s\n%s.$%s: 777;\n' % (use_line(n['lib']), n['lib'], n['zz'])
         return [probe('assign-undeclared', files, 'error', None, sig)]
     if op == 'control':
-        files = {'main.scss': '@use "sass:math";\n.r {\n  q1: math.$pi;\n  q2: math.$e;\n}\n'}
-        return [probe('control', files, 'prefix', {'q1': '3.14159', 'q2': '2.71828'}, sig)]
+        files = {'main.scss': '@use "sass:math";\n.rq {\n  q1: math.$pi;\n  q2: math.$e;\n}\n'}
+        return [probe('control', files, 'prefix', {'q:q1': '3.14159', 'q:q2': '2.71828'}, sig)]
     if op == 'use-with':
         main = '@use "sass:%s" with ($%s: 3);\n' % (m, var)
     elif op == 'forward-with':
@@ -649,7 +646,7 @@ def t_builtin(v, n):
         main = '@use "sass:%s";\n%s.$%s: 3;\n' % (m, m, var)
     else:
         main = '@use "sass:%s" as %s;\n%s.$%s: 3;\n' % (m, n['as'], n['as'], var)
-    return [probe(op, {'main.scss': main + '.r {\n  q1: 1;\n}\n'}, 'error', None, sig)]
+    return [probe(op, {'main.scss': main + '.rq {\n  q1: 1;\n}\n'}, 'error', None, sig)]
 
 
 # ----------------------------------------------------------------------------------------------------------------------
@@ -669,9 +666,9 @@ def t_private(v, n):
     dname, aname = v['decl'] + base_name, v['acc'] + base_name
     # the library uses its own private member (positive control) and exports a public function that reads it
     src = member_src(k, dname, val, prop) + '\n'
-    rc = Reads()
+    rc = Reads('c')
     rc.add('', k, dname, val, prop)
-    libsrc = src + rc.rule().replace('.r {', '.c {')
+    libsrc = src + rc.rule()
     lib = {'_%s.scss' % n['lib']: libsrc}
     via = v['via']
     if via in ('namespace', 'as-name', 'star'):
@@ -685,18 +682,12 @@ def t_private(v, n):
         ns = ns_of(n['mid'], as_)
         files0 = dict(lib)
         files0['_%s.scss' % n['mid']] = '@forward "%s";\n' % n['lib']
-    sig = 'private|kind=%s' % k
+    sig = 'private|member-reached-from-outside'
     probes = []
     files = dict(files0)
     files['main.scss'] = head
-    probes.append(probe('control', files, 'value', rc.want, sig + '|control'))
-    r = Reads()
-    if ns == '' and k == 'fn':
-        r.add(ns, k, aname, aname + '()')
-        exp = 'value'
-    else:
-        r.add(ns, k, aname, None)
-        exp = 'error'
+    probes.append(probe('control', files, 'value', rc.want, 'private|used-inside-its-module'))
+    r, exp = denied(ns, k, aname)
     files = dict(files0)
     files['main.scss'] = head + r.rule()
     probes.append(probe('access', files, exp, r.want, sig))
@@ -721,22 +712,27 @@ def all_cases(rng, style_of):
             i += 1
 
 
+RULE_RE = re.compile(r'\.r([a-z])\s*\{([^{}]*)\}')
+
+
 def observed_class(p, r):
+    """-> (class, info): 'ok' (every wanted text is there), 'other-value', 'not-reachable', 'value-missing', 'error',
+    'parse-error', 'panic'."""
     st = r.get('status')
     if st == 'ok':
         got = {}
-        for m in DECL.finditer(r.get('out', '')):
-            got.setdefault(m.group(1), m.group(2).strip())
+        for rm in RULE_RE.finditer(r.get('out', '')):
+            for m in DECL.finditer(rm.group(2)):
+                got.setdefault('%s:%s' % (rm.group(1), m.group(1)), m.group(2).strip())
+        cls = 'ok'
         for prop, want in p['want'].items():
             g = got.get(prop)
             if g is None:
-                return 'ok-but-value-missing', got
-            if p['exp'] == 'prefix':
-                if not g.startswith(want):
-                    return 'ok-but-other-value', got
-            elif g != want:
-                return 'ok-but-other-value', got
-        return 'ok', got
+                return 'value-missing', got
+            if not (g.startswith(want) if p['exp'] == 'prefix' else g == want):
+                # a call that reached no function is left as CSS text: the member was not reachable
+                cls = 'not-reachable' if g.endswith('()') and not want.endswith('()') and cls != 'other-value' else 'other-value'
+        return cls, got
     if st == 'err':
         return ('parse-error' if r.get('kind') == 'parse' else 'error'), (r.get('err') or '')[:300]
     return st, r.get('panic_msg')
@@ -745,26 +741,30 @@ def observed_class(p, r):
 def judge(ctx, case, p, r):
     ctx.ran()
     st = r.get('status')
-    if st in ('timeout', 'crash', 'harness-error') or st not in ('ok', 'err', 'panic'):
+    if st not in ('ok', 'err', 'panic'):
         ctx.undecided(str(st))
         return
     obs, info = observed_class(p, r)
     t = case['t']
     ctx.nontrivial((t, case['v'], p['id'], case['n']))
     ctx.seen('templates', t)
-    ctx.seen('probe_classes', p['sig'].split('|kind=')[0] if t != 'fwd' else p['sig'])
+    ctx.seen('probe_classes', p['sig'])
     ctx.seen('outcomes', '%s: expected %s, observed %s' % (t, p['exp'], obs))
     ctx.seen('name_styles', case['n'].get('style'))
-    exp = 'error' if p['exp'] == 'error' else 'value'
-    detail = {'probe': p['id'], 'files': p['files'], 'entry': p['entry'], 'expected': p['want'] if exp == 'value' else 'an error',
+    refused = p['exp'] in ('error', 'plain')
+    detail = {'probe': p['id'], 'files': p['files'], 'entry': p['entry'],
+              'expected': {'error': 'an error', 'plain': 'plain CSS text (or an error), not a member: %s' % p['want']}.get(p['exp'], p['want']),
               'observed': info if st != 'ok' else r.get('out', '')[:400]}
-    if exp == 'error':
-        if st == 'err':
+    if st == 'panic':
+        if refused:
+            ctx.undecided('panic-where-refusal-expected', str(info)[:120])     # C01's business
+        else:
+            ctx.violation('%s|expected=value|observed=panic' % p['sig'], case, detail)
+        return
+    if refused:
+        if st == 'err' or (p['exp'] == 'plain' and obs == 'ok'):
             return
-        if st == 'panic':
-            ctx.undecided('panic-where-error-expected', str(info)[:120])
-            return
-        ctx.violation('%s|expected=error|observed=accepted' % p['sig'], case, detail)
+        ctx.violation('%s|expected=refused|observed=accepted' % p['sig'], case, detail)
         return
     if obs == 'ok':
         return
@@ -772,6 +772,8 @@ def judge(ctx, case, p, r):
         # `@use ... as x with (...)` refused by the parser: one defect, whatever is configured
         ctx.violation('use-syntax|as+with|as=%s|expected=accepted|observed=parse-error' % case['v']['as'], case, detail)
         return
+    if obs in ('parse-error', 'error'):
+        obs = 'not-reachable'
     ctx.violation('%s|expected=value|observed=%s' % (p['sig'], obs), case, detail)
 
 
